@@ -53,14 +53,17 @@ func (c *Config) VerifyConfig(schema base.LogSchema) error {
 func (tf *truncateTransform) Transform(record *base.LogRecord) base.FilterResult {
 	value := tf.keyLocator.Get(record.Fields)
 	if len(value) > tf.maxLength+len(tf.suffix) {
-		valueB := util.BytesFromString(value)
+		// build the result in a new buffer: the bytes of the value may be shared with other fields (e.g. copied by addFields),
+		// other records or the configuration (e.g. mapValue results) and may even be read-only (e.g. facility names)
+		valueB := make([]byte, tf.maxLength, tf.maxLength+len(tf.suffix))
+		copy(valueB, value[:tf.maxLength])
 
 		// truncate and clean up before the maxLength in case of UTF-8 sequences cut in the middle
-		valueTrimmed := util.CleanUTF8(valueB[:tf.maxLength])
+		valueTrimmed := util.CleanUTF8(valueB)
 		// paste suffix at the truncated end - NOT the maxLength as the actual length could be smaller due to UTF-8 cleanup
-		valueOverwritten := util.OverwriteNTruncate(valueB, len(valueTrimmed), tf.suffix)
+		valueTruncated := append(valueTrimmed, tf.suffix...)
 
-		tf.keyLocator.Set(record.Fields, util.StringFromBytes(valueOverwritten))
+		tf.keyLocator.Set(record.Fields, util.StringFromBytes(valueTruncated))
 	}
 	return base.PASS
 }
